@@ -299,6 +299,30 @@ pub fn c08_state(ctx: &Ctx, hs: &[(u64, ZobristHasher)], p: &Pos, l: &mut Local,
             }
         }
     }
+    // every legal castling-rights subset of this placement must get its own key
+    {
+        let mut seen: Vec<(u8, Vec<u64>)> = Vec::new();
+        for cr in 0..16u8 {
+            let mut q = p.clone();
+            q.cr = cr;
+            if cr == p.cr || q.is_legal_position() {
+                let qs = to_state(&q);
+                let hv: Vec<u64> = hs.iter().map(|(_, h)| h.hash(&qs)).collect();
+                for (ocr, ohv) in &seen {
+                    for i in 0..hv.len() {
+                        l.inc("separation_pairs");
+                        if hv[i] == ohv[i] {
+                            let mut o = p.clone();
+                            o.cr = *ocr;
+                            ctx.violation("hash-ignores-castling-right", format!("{} | {}", o.epd(), q.epd()), json!({"a": o.fen(), "b": q.fen(), "differs_in": "castling rights (sets)", "seed": hs[i].0}));
+                            return;
+                        }
+                    }
+                }
+                seen.push((cr, hv));
+            }
+        }
+    }
     let mut ns = cheap_neighbours(p);
     if placement {
         ns.extend(placement_neighbours(p));
@@ -387,6 +411,18 @@ pub fn run_c08(ctx: &Ctx) -> i32 {
 // ------------------------------------------------------------------ C10
 
 pub fn c10_state(ctx: &Ctx, p: &Pos, l: &mut Local, legal_pos: bool) {
+    // is_check asked first on a fresh object (nothing cached yet), per colour
+    for white in [true, false] {
+        let fresh = to_state(p);
+        if fresh.board().is_check(w_color(white)) != p.in_check(white) {
+            ctx.violation("is-check-mismatch-on-fresh-object", p.fen(), json!({"fen": p.fen(), "white": white, "expected": p.in_check(white)}));
+            return;
+        }
+    }
+    if legal_pos && to_state(p).is_check() != p.in_check(p.wtm) {
+        ctx.violation("state-is-check-mismatch-on-fresh-object", p.fen(), json!({"fen": p.fen()}));
+        return;
+    }
     let st = to_state(p);
     l.inc("states");
     for white in [true, false] {
